@@ -136,6 +136,25 @@ def repr_parse(repo: Repo, rep):
             rep.ok("R-REPR-PARSE", f, r.ast, "bare repr only after ast.parse succeeded")
         else:
             rep.violation("R-REPR-PARSE", f, r.ast, "value_code_repr returns the object's repr without having checked that it parses: `<A object at 0x...>` is written into snapshot(...) and the test file no longer compiles", construct="bare-return")
+    # every other return hands back a HasRepr(...) text; nothing leaves the function without the dispatch + parse check
+    for r in cfg.stmts(ast.Return):
+        if r in rets or r.ast.value is None:
+            continue
+        t = norm(r.ast.value)
+        if "HasRepr(" in t:
+            continue
+        v = r.ast.value
+        if isinstance(v, ast.Name):
+            vals = [def_value(d, v.id) for d in reaching_defs(cfg, r, v.id)]
+            if vals and all(x is not None and ("HasRepr(" in norm(x) or "code_repr_dispatch" in norm(x)) for x in vals) and parses and r not in reach(cfg, [cfg.entry], blocked_nodes=parses):
+                continue
+        rep.violation(
+            "R-REPR-PARSE",
+            f,
+            r.ast,
+            f"value_code_repr returns `{short(v, 50)}` without code_repr_dispatch() and the ast.parse check: registered representations (enums, str/bytes subclasses with their own repr, ...) are by-passed and `<Color.RED: 'red'>` is written into the test file",
+            construct="undispatched-return",
+        )
     handlers = [n for n in cfg.live if n.kind == "handler" and n.ast.type is not None and "SyntaxError" in norm(n.ast.type)]
     good = False
     for h in handlers:
